@@ -486,6 +486,10 @@ def t3_cases(tier):
             for nbw in nbws:
                 if nmaxb > 255 and nbw > 12:
                     continue        # 13 three-byte elements exceed a frame
+                if nmaxb >= 255 and tier == 'thorough' and (
+                        nbr not in (1, 2, 3, 4, 5, 8, 12, 15) or
+                        nbw not in (1, 2, 3, 4, 8, 12, 13)):
+                    continue        # 4 KiB tags: reduced Nbr x Nbw grid
                 # physical blocks behind Nmaxb: one for odd Nbr, none for even
                 out.append(T3Case(nbr, nbw, nmaxb, spare=nbr % 2))
     blocks = range(1, 65) if tier == 'thorough' else (1, 2, 3, 4, 5, 8, 15, 16,
@@ -541,6 +545,8 @@ class T4Case(Case):
         flags = []
         if n == 0:
             flags.append('len=0')
+        if n + nl > 0x8000:
+            flags.append('len+nlen>32768')      # offsets need more than 15 bits
         if op == 'read':
             if self.mle > 256 and n > 256:
                 flags.append('MLe>256,len>256')
@@ -574,6 +580,8 @@ def t4_cases(tier):
                     i += 1
                     out.append(T4Case(mapping, mle, mlc, mfs, fsci=i % 9,
                                       tech='AB'[(i // 9) % 2]))
+    # a file that needs the extended TLV: READ/UPDATE BINARY offsets >= 8000h
+    out.append(T4Case(0x30, 256, 255, 0x8000 + 600, 8, 'A'))
     if tier == 'thorough':
         for mapping in (0x20, 0x30):
             for mle, mlc in ((15, 1), (59, 13), (255, 255), (256, 52)):
@@ -613,19 +621,22 @@ GRID_DOC = {
               'with 14 block counts x 4 (Nbr,Nbw)',
         'T4': 'mapping x MLe x MLc x mfs full product, FSCI 0..8 and A/B '
               'rotated; lengths all if cap<=100 else boundary sets + '
-              'multiples of max(MLc,64)',
+              'multiples of max(MLc,64); plus one mapping 3.0 tag with a '
+              '33368 byte file (MLe 256, MLc 255)',
     },
     'thorough': {
-        'combos(pattern,previous)': 'T1/T2 cap<=300: all 4x3; T1/T2 larger and '
-                                    'T3/T4 cap<=300: count/empty, tlv/long, '
-                                    'ff/short, zero/long; T3/T4 larger: '
-                                    'count/empty, tlv/long',
+        'combos(pattern,previous)': 'T1/T2 cap<=300: all 4 patterns x 3 '
+                                    'previous; T1/T2 cap<=520: count/empty, '
+                                    'tlv/long, ff/short, zero/long; larger '
+                                    'T1/T2 and all T3/T4: count/empty, tlv/long',
         'T1,T2 lengths': 'all if cap<=300; else boundary sets + multiples of '
                          'the write unit (cap<=520) / of 16 (larger)',
-        'T3': 'Nbr 1..15 x Nbw 1..13 x Nmaxb set; large Nmaxb: multiples of 64',
+        'T3': 'Nbr 1..15 x Nbw 1..13 for Nmaxb {1,2,3,13,16,17}; Nbr '
+              '{1,2,3,4,5,8,12,15} x Nbw {1,2,3,4,8,12,13} for Nmaxb {255,256} '
+              'with multiples of 64; emulation with 1..64 blocks x 4 (Nbr,Nbw)',
         'T4': 'full product + FSCI x A/B crossed with 4 (MLe,MLc) corners; '
               'lengths all if cap<=300 else boundary sets + multiples of '
-              'max(MLc,16)',
+              'max(MLc,16); plus the 33368 byte mapping 3.0 tag',
     },
 }
 
@@ -644,12 +655,13 @@ def plan(case, tier):
         return ls, QUICK_COMBOS
     if tlvk:
         ls = lengths(cap, case.unit, tier, fine=None if cap <= 520 else 16)
-        return ls, (FULL_COMBOS if cap <= 300 else MID_COMBOS)
+        return ls, (FULL_COMBOS if cap <= 300 else
+                    (MID_COMBOS if cap <= 520 else QUICK_COMBOS))
     if case.kind in ('T3', 'T3emu'):
         ls = lengths(cap, 16, tier, fine=64)
     else:
         ls = lengths(cap, case.unit, tier, fine=max(case.unit, 16))
-    return ls, (MID_COMBOS if cap <= 300 else QUICK_COMBOS)
+    return ls, QUICK_COMBOS
 
 
 def prev_message(case, prev):
